@@ -170,7 +170,7 @@ func (c *FnCtx) evalCall(st *State, call *ast.CallExpr) []Term {
 	prevArgs := c.curCallArgs
 	var myArgs []string
 	for _, a := range call.Args {
-		myArgs = append(myArgs, types.ExprString(a))
+		myArgs = append(myArgs, c.exprText(a))
 	}
 	c.curCallArgs = myArgs
 	defer func() { c.curCallArgs = prevArgs }()
